@@ -168,11 +168,53 @@ def oracles(ctx: Ctx):
                                   f"{out if isinstance(out, Err) else 'different bytes'} instead of the plaintext"},
                           key="roundtrip.ticking")
             break
-    ctx.oracle_runs += n + tn
+    # plaintext sizes at which the DER length of the content (and of every enclosing element) needs one more octet: 2^16 and 2^24
+    # (the second is 16 MiB: real crypto only, both layouts, sync)
+    bn = 0
+    for size in BIG_SIZES if ctx.thorough else BIG_SIZES[-2:]:
+        for trailing in (0, 1):
+            bn += 1
+            out = dec(run_impl(impl_roundtrip_big, [size, trailing]))
+            why = _pred_big([size, trailing], out)
+            if why:
+                ctx.violation("failing-input", "oracle:client.roundtrip.big",
+                              {"unit": "client.roundtrip.big", "input": enc([size, trailing]), "why": why}, key="roundtrip.big")
+                break
+    ctx.oracle_runs += n + tn + bn
     ctx.extra["ticking_roundtrips"] = tn
+    ctx.extra["big_roundtrips"] = bn
 
 
 TICK_DATA = b"protected while the clock ticks"
+BIG_SIZES = [65535 - 16, 65536, 2 ** 24 - 17, 2 ** 24 - 16, 2 ** 24 + 5]
+
+
+def impl_roundtrip_big(arg):
+    """real crypto, root key loaded: protect a plaintext of `size` octets (pattern i % 251), optionally re-laid out with the ciphertext
+    trailing the envelope, unprotect; returns [length, sha256 of the result] (the plaintext itself would be 16 MiB of text)"""
+    import hashlib
+
+    import dpapi_ng
+    from dpapi_ng._blob import DPAPINGBlob
+
+    size, trailing = arg
+    data = bytes(i % 251 for i in range(4096)) * (size // 4096 + 1)
+    data = data[:size]
+    cache = e2e.mk_cache([e2e.root_spec(4)])
+    blob = dpapi_ng.ncrypt_protect_secret(data, SIDS[0], root_key_identifier=e2e.RKID, cache=cache)
+    if trailing:
+        blob = DPAPINGBlob.unpack(blob).pack(blob_in_envelope=False)
+    out = dpapi_ng.ncrypt_unprotect_secret(blob, cache=e2e.mk_cache([e2e.root_spec(4)]))
+    return [len(out), hashlib.sha256(out).digest() == hashlib.sha256(data).digest()]
+
+
+def _pred_big(arg, out):
+    size, trailing = arg
+    if isinstance(out, Err) or out is None:
+        return f"a plaintext of {size} octets ({'trailing' if trailing else 'in-envelope'} layout) does not round-trip: {out}"
+    if list(out) != [size, 1] and list(out) != [size, True]:
+        return f"a plaintext of {size} octets comes back as {out[0]} octets, equal = {out[1]}"
+    return None
 
 
 def _pred_ticking(arg, out):
@@ -223,7 +265,8 @@ def ticking_cases(ctx: Ctx):
     return cases
 
 
-ORACLE_REPLAY = {"client.roundtrip.ticking": (lambda a: impl_roundtrip_ticking(a), _pred_ticking)}
+ORACLE_REPLAY = {"client.roundtrip.ticking": (lambda a: impl_roundtrip_ticking(a), _pred_ticking),
+                 "client.roundtrip.big": (lambda a: impl_roundtrip_big(a), _pred_big)}
 
 
 def search(ctx: Ctx):
